@@ -51,7 +51,9 @@ Dispatched(c, kind) == [c EXCEPT !.params = IF kind = "dynamic" THEN "own" ELSE 
 Pristine(kind) == Dispatched(Fresh, kind)
 
 Mutate(c, muts) ==
-  [ data    |-> c.data \cup (IF "set" \in muts THEN {"k"} ELSE {}),
+  [ \* "datawrite": the handler writes through the map Data() hands out (nil, hence nothing to write into, when the
+    \* dispatcher has stored nothing for this kind of request)
+    data    |-> c.data \cup (IF "set" \in muts THEN {"k"} ELSE {}) \cup (IF "datawrite" \in muts /\ c.data # {} THEN {"k2"} ELSE {}),
     params  |-> IF "params" \in muts THEN "dirty" ELSE c.params,
     errors  |-> c.errors + (IF "error" \in muts THEN 1 ELSE 0),
     aborted |-> c.aborted \/ "abort" \in muts,
